@@ -796,6 +796,13 @@ def m_hexlify(I, args, kwargs):
     r = f(t)
     I.fact(z3.Length(r) == 2 * z3.Length(t))
     I.fact(g(r) == t)
+    I.fact(ufun('is_hex', SeqS, BoolS)(r))
+    for en in ('utf8', 'ascii'):
+        I.fact(ufun('decodable_' + en, SeqS, BoolS)(r))
+        # hex digits are ASCII: the text has the same code points as the bytes
+        I.fact(ufun('decode_' + en, SeqS, SeqS)(r) == r)
+        I.fact(ufun('encodable_' + en, SeqS, BoolS)(r))
+        I.fact(ufun('encode_' + en, SeqS, SeqS)(r) == r)
     return SSeq(r, bytes)
 
 
@@ -990,6 +997,23 @@ def build_models(I):
     reg(struct.calcsize, m_struct_calcsize)
     reg(hashlib.sha256, m_sha256)
     reg(hashlib.sha1, m_sha1)
+    def _exc_new(I, a, k):
+        cls = a[0]
+        if not (isinstance(cls, type) and issubclass(cls, BaseException)):
+            raise OutOfReach('BaseException.__new__ of %r' % (cls,))
+        return ExcVal(cls, ())
+
+    def _exc_init(I, a, k):
+        if not isinstance(a[0], ExcVal):
+            raise OutOfReach('BaseException.__init__ of %r' % (a[0],))
+        a[0].args = tuple(a[1:])
+        return None
+    reg(BaseException.__new__, _exc_new)
+    reg(BaseException.__init__, _exc_init)
+    reg(Exception.__init__, _exc_init)
+    import json as _json
+    reg(_json.dumps, lambda I, a, k: Opaque('json_text', str))
+    reg(_json.loads, lambda I, a, k: Opaque('json_value', object))
     reg(binascii.hexlify, m_hexlify)
     reg(binascii.unhexlify, m_unhexlify)
     reg(io.BytesIO, m_bytesio)
@@ -1328,13 +1352,15 @@ def _(I, sv, args, kwargs):
         except UnicodeError as e:
             I.raise_exc(type(e))
     enc = args[0] if args else kwargs.get('encoding', 'utf-8')
-    f = ufun('encode_' + str(enc).replace('-', '').lower(), SeqS, SeqS)
-    g = ufun('decode_' + str(enc).replace('-', '').lower(), SeqS, SeqS)
+    en = str(enc).replace('-', '').lower()
+    f = ufun('encode_' + en, SeqS, SeqS)
+    g = ufun('decode_' + en, SeqS, SeqS)
+    can = ufun('encodable_' + en, SeqS, BoolS)
+    valid = ufun('decodable_' + en, SeqS, BoolS)
+    if not I.pure and not I.decide(can(sv.t)):
+        I.raise_exc(UnicodeEncodeError, en, '', 0, 0, 'symbolic text not encodable')
     t = f(sv.t)
-    I.fact(g(t) == sv.t)
-    if str(enc).replace('-', '').lower() in ('utf8', 'ascii'):
-        # hex digit strings and similar: assumed contract = identity on code points < 128
-        pass
+    I.fact(z3.Implies(can(sv.t), z3.And(g(t) == sv.t, valid(t))))
     return SSeq(t, bytes)
 
 
@@ -1346,9 +1372,16 @@ def _(I, sv, args, kwargs):
         except UnicodeError as e:
             I.raise_exc(type(e))
     enc = args[0] if args else kwargs.get('encoding', 'utf-8')
-    f = ufun('encode_' + str(enc).replace('-', '').lower(), SeqS, SeqS)
-    g = ufun('decode_' + str(enc).replace('-', '').lower(), SeqS, SeqS)
+    en = str(enc).replace('-', '').lower()
+    f = ufun('encode_' + en, SeqS, SeqS)
+    g = ufun('decode_' + en, SeqS, SeqS)
+    can = ufun('encodable_' + en, SeqS, BoolS)
+    valid = ufun('decodable_' + en, SeqS, BoolS)
+    if not I.pure and not I.decide(valid(sv.t)):
+        I.raise_exc(UnicodeDecodeError, en, b'', 0, 0, 'symbolic bytes not decodable')
     t = g(sv.t)
+    # strict codecs: decoding then encoding gives the bytes back
+    I.fact(z3.Implies(valid(sv.t), z3.And(f(t) == sv.t, can(t))))
     return SSeq(t, str)
 
 
